@@ -52,7 +52,12 @@ DeclTable(d) ==
       pkcols == IF Len(tpk) > 0 THEN [i \in DOMAIN tpk[1].cols |-> tpk[1].cols[i].n]
                 ELSE LET cp == SelectSeq(cols, LAMBDA c : c.colpk) IN [i \in DOMAIN cp |-> cp[i].name]
       uniqs == SelectSeq(tix, LAMBDA x : ~("primary" \in DOMAIN x /\ x.primary))
+      IsDesc(c) == "o" \in DOMAIN c /\ c.o = "Desc"
   IN [name |-> d.table, cols |-> cols, pk |-> pkcols,
+      \* declared direction of the key columns of table-level PRIMARY KEY / UNIQUE constraints (column-level ones: ascending)
+      pkdesc |-> IF Len(tpk) > 0 THEN [i \in DOMAIN tpk[1].cols |-> IsDesc(tpk[1].cols[i])] ELSE [i \in DOMAIN pkcols |-> FALSE],
+      udesc |-> [i \in DOMAIN SelectSeq(cols, LAMBDA c : c.unique) |-> <<FALSE>>]
+                \o [i \in DOMAIN uniqs |-> [j \in DOMAIN uniqs[i].cols |-> IsDesc(uniqs[i].cols[j])]],
       \* declared uniqueness constraints (each gives an automatic index, origin "u"), in declaration order
       uniques |-> [i \in DOMAIN SelectSeq(cols, LAMBDA c : c.unique) |-> <<SelectSeq(cols, LAMBDA c : c.unique)[i].name>>]
                   \o [i \in DOMAIN uniqs |-> [j \in DOMAIN uniqs[i].cols |-> uniqs[i].cols[j].n]],
@@ -117,7 +122,7 @@ Exec(cat, d) ==
             [] o.k = "rename_column" ->
                  LET Rn(x) == IF x = o.from THEN o.to ELSE x IN
                  LET tb == cat[t]
-                     tb2 == [name |-> tb.name, nchecks |-> tb.nchecks,
+                     tb2 == [name |-> tb.name, nchecks |-> tb.nchecks, pkdesc |-> tb.pkdesc, udesc |-> tb.udesc,
                              cols |-> [i1 \in DOMAIN tb.cols |-> [tb.cols[i1] EXCEPT !.name = Rn(@)]],
                              pk |-> [i2 \in DOMAIN tb.pk |-> Rn(tb.pk[i2])],
                              uniques |-> [i3 \in DOMAIN tb.uniques |-> [j3 \in DOMAIN tb.uniques[i3] |-> Rn(tb.uniques[i3][j3])]],
@@ -141,8 +146,8 @@ TableReasons(mt, dt) ==
   LET dcols == SelectSeq(dt.cols, LAMBDA c : c.hidden \in {0, 2, 3})
       rowidAlias == Len(mt.pk) = 1 /\ \E i \in DOMAIN dcols : dcols[i].name = mt.pk[1] /\ UpperStr(dcols[i].type) = "INTEGER"
       \* automatic indexes the declaration implies
-      wantAuto == (IF Len(mt.pk) > 0 /\ ~rowidAlias THEN {[unique |-> 1, origin |-> "pk", cols |-> PlainCols(mt.pk)]} ELSE {})
-                  \cup {[unique |-> 1, origin |-> "u", cols |-> PlainCols(mt.uniques[i])] : i \in DOMAIN mt.uniques}
+      wantAuto == (IF Len(mt.pk) > 0 /\ ~rowidAlias THEN {[unique |-> 1, origin |-> "pk", cols |-> [j \in DOMAIN mt.pk |-> [n |-> mt.pk[j], desc |-> mt.pkdesc[j]]]]} ELSE {})
+                  \cup {[unique |-> 1, origin |-> "u", cols |-> [j \in DOMAIN mt.uniques[i] |-> [n |-> mt.uniques[i][j], desc |-> mt.udesc[i][j]]]] : i \in DOMAIN mt.uniques}
       gotAuto == {[unique |-> dt.indexes[i].unique, origin |-> dt.indexes[i].origin, cols |-> [j \in DOMAIN dt.indexes[i].cols |-> [n |-> dt.indexes[i].cols[j].n, desc |-> dt.indexes[i].cols[j].desc = 1]]]
                     : i \in {k \in DOMAIN dt.indexes : dt.indexes[k].origin # "c"}}
       wantIdx == {[name |-> mt.indexes[i].name, unique |-> IF mt.indexes[i].unique THEN 1 ELSE 0, partial |-> IF mt.indexes[i].partial THEN 1 ELSE 0, cols |-> mt.indexes[i].cols] : i \in DOMAIN mt.indexes}
